@@ -106,14 +106,10 @@ def table_unit(cell):
         d = {"tri": 2, "tet": 3}[cell]
         fn = ctx.function(f)
         keys, shape_ok = literal_keys(f.__name__)
-        ctx.fact("dispatch/%s/ast-shape" % cell, fn, bool(shape_ok) and keys and all(isinstance(k, int) for k in keys),
-                 "function body is not `clamp; try: return {literal}[norder] except KeyError: raise`",
-                 clause="only exits: literal-dict lookup or raise NotImplementedError; keys are int literals", backend="ast")
         keys = sorted(k for k in (keys or []) if isinstance(k, int))
-        ctx.fact("dispatch/%s/keys-distinct" % cell, fn, len(set(keys)) == len(keys), "duplicate dict keys %s" % keys)
-        lo = min(keys)
+        PROBE = range(-3, 61)
         rules, raises = {}, {}
-        for n in range(-3, 61):
+        for n in PROBE:
             try:
                 X, W = f(n)
                 rules[n] = (np.asarray(X, dtype=float), np.asarray(W, dtype=float))
@@ -122,47 +118,72 @@ def table_unit(cell):
                 raises[n] = "NotImplementedError"
             except Exception as e:
                 raises[n] = type(e).__name__
-        for n in range(-3, 61):
-            raised = raises[n]
-            if n in keys:
-                ctx.fact("dispatch/%s/n%d/offered" % (cell, n), fn, raised is None, "order %d is a key but raised %s" % (n, raised),
-                         backend="path-execution")
-            elif n < lo:
-                ok = raised is None and lo in rules and np.array_equal(rules[n][0], rules[lo][0]) and np.array_equal(rules[n][1], rules[lo][1])
-                ctx.fact("dispatch/%s/n%d/clamped-up" % (cell, n), fn, bool(ok), "order %d below the tables must return the rule of order %d" % (n, lo),
-                         clause="n < %d  =>  rule(n) is rule(%d) (clamping only raises the order)" % (lo, lo), backend="path-execution")
-            else:
-                ctx.fact("dispatch/%s/n%d/raises" % (cell, n), fn, raised == "NotImplementedError",
-                         "order %d is not tabulated but the call %s" % (n, "returned a rule" if raised is None else "raised " + raised),
-                         clause="n not a key  =>  NotImplementedError", backend="path-execution",
-                         replay=dict(kind="quadrature", cell=cell, n=n, clause="raises"))
+        offered = sorted(rules)
+        ctx.fact("dispatch/%s/some-order-offered" % cell, fn, len(offered) > 0, "no order in [-3,60] returns a rule", backend="path-execution")
+        if shape_ok and keys:
+            # the AST has the recognised shape `clamp; try: return {literal}[norder] except KeyError: raise`: then the literal's keys are
+            # all the orders that can ever be returned, which extends the claim from the probed range to every integer order
+            ctx.fact("dispatch/%s/offered-orders-are-the-literal-keys" % cell, fn, set(k for k in offered if k >= min(keys)) == set(keys),
+                     "offered %s vs dict keys %s" % (offered, keys), clause="orders returning a rule (>= smallest key) == keys of the dict literal; "
+                     "hence every order above %d raises" % max(keys), backend="ast+path-execution")
+        else:
+            ctx.notes.append("%s: source does not have the recognised literal-lookup shape; 'orders outside the tables raise' is claimed "
+                             "for the probed range [-3,60] only" % f.__name__)
+            ctx.assume("get_quadrature_%s: orders above 60 not examined (source shape not recognised by the AST reader)" % cell)
+        for n in PROBE:
+            if raises[n] is not None:
+                ctx.fact("dispatch/%s/n%d/raises" % (cell, n), fn, raises[n] == "NotImplementedError",
+                         "order %d raised %s instead of NotImplementedError" % (n, raises[n]),
+                         clause="an order that is not offered raises NotImplementedError", backend="path-execution")
         meas = Fraction(1, math.factorial(d))
-        for n in keys:
-            if n not in rules:
-                continue
+        cache = {}
+        for n in offered:
             X, W = rules[n]
             ok_shape = X.ndim == 2 and X.shape[0] == d and W.ndim == 1 and X.shape[1] == W.shape[0]
             ctx.fact("table/%s/n%d/shape" % (cell, n), fn, ok_shape, "X %s W %s" % (X.shape, W.shape))
             if not ok_shape:
                 continue
+            key = (X.tobytes(), W.tobytes())
+            deg = max(n, 0)
+            if key not in cache:
+                cache[key] = {}
             Xf = [fr(X[k]) for k in range(d)]
             Wf = fr(W)
-            exps = [e for e in itertools.product(range(n + 1), repeat=d) if sum(e) <= n]
-            mom = moments(Xf, Wf, exps)
-            for e in exps:
+            exps = [e for e in itertools.product(range(deg + 1), repeat=d) if sum(e) <= deg and e not in cache[key]]
+            cache[key].update(moments(Xf, Wf, exps) if exps else {})
+            mom = cache[key]
+            for e in [e for e in itertools.product(range(deg + 1), repeat=d) if sum(e) <= deg]:
                 err = abs(mom[e] - integrate_monomial_simplex(e))
+                rp = dict(kind="quadrature", cell=cell, n=n, clause="moment", exps=list(e))
                 if sum(e) == 0:
                     ctx.fact("table/%s/n%d/measure" % (cell, n), fn, err <= TOLW, "sum of weights off by %.3e" % float(err),
-                             clause="|sum w - %s| <= 1e-14" % meas, replay=dict(kind="quadrature", cell=cell, n=n, clause="moment", exps=list(e)))
+                             clause="|sum w - %s| <= 1e-14" % meas, replay=rp)
                 else:
                     ctx.fact("table/%s/n%d/moment%s" % (cell, n, "".join(map(str, e))), fn, err <= TOL,
                              "moment %s off by %.3e (relative %.2e)" % (e, float(err), float(err / integrate_monomial_simplex(e))),
-                             clause="|sum_q w_q x_q^%s - %s| <= 1e-13" % (list(e), integrate_monomial_simplex(e)),
-                             replay=dict(kind="quadrature", cell=cell, n=n, clause="moment", exps=list(e)))
+                             clause="|sum_q w_q x_q^%s - %s| <= 1e-13" % (list(e), integrate_monomial_simplex(e)), replay=rp)
             inside = all(all(Xf[k][q] >= 0 for k in range(d)) and sum(Xf[k][q] for k in range(d)) <= 1 + TOLW for q in range(len(Wf)))
             ctx.fact("table/%s/n%d/nodes-in-cell" % (cell, n), fn, inside, "a node lies outside the closed reference cell",
                      clause="x_q >= 0 and sum_k x_qk <= 1 for all q", replay=dict(kind="quadrature", cell=cell, n=n, clause="inside"))
+        _fresh(ctx, fn, "table/%s" % cell, f, [n for n in offered if n >= 0][:6])
     return run
+
+
+def _fresh(ctx, fn, pre, getter, orders):
+    """FRESH: results are not aliased with library state — mutating a returned rule must not change later results."""
+    for n in orders:
+        X0, W0 = getter(n)
+        Xc, Wc = np.array(X0, copy=True), np.array(W0, copy=True)
+        try:
+            X0 *= 3.0
+            W0 += 1.0
+        except ValueError:       # read-only results are fine, too
+            pass
+        X1, W1 = getter(n)
+        ok = np.array_equal(X1, Xc) and np.array_equal(W1, Wc)
+        ctx.fact("%s/n%d/fresh" % (pre, n), fn, ok, "after the caller modified a returned rule in place, the next call for order %d returns a different rule" % n,
+                 clause="returned arrays are fresh: in-place modification by the caller does not affect later calls",
+                 replay=dict(kind="quadrature_fresh", getter=getattr(getter, "__name__", "get_quadrature"), n=n), backend="path-execution")
 
 
 def line_symbolic(ctx):
@@ -196,6 +217,11 @@ def line_symbolic(ctx):
     finally:
         Q.leggauss = saved[0]
         del Q.int
+    if any(isinstance(p.exc, (TypeError, AttributeError)) for p in ps):
+        # e.g. a memoising wrapper hashing its argument: outside the symbolic subset -> undecided here; the concrete units
+        # line/rules (orders -2..30) still decide the rule itself
+        ctx.unsupported("line/all-orders", fn, "symbolic order not accepted by the function: %s" % [repr(p.exc) for p in ps][:2])
+        return
     ctx.fact("line/paths", fn, 1 <= len(ps) <= 4 and all(p.exc is None for p in ps), "paths: %s" % ps, backend="path-execution")
     for k, p in enumerate(ps):
         if p.exc is not None:
@@ -248,6 +274,7 @@ def line_rules(ctx):
         ctx.fact("line/n%d/exact" % n, fn, not bad, "moments off: %s" % bad[:3], clause="exact for x^a, a <= max(n,2)=%d on [0,1]" % deg,
                  replay=dict(kind="quadrature", cell="line", n=n, clause="moment", exps=[bad[0][0]] if bad else [0]))
         ctx.fact("line/n%d/nodes" % n, fn, all(0 <= x <= 1 for x in Xf), "node outside [0,1]")
+    _fresh(ctx, fn, "line", Q.get_quadrature_line, [0, 2, 3, 5, 8])
 
 
 UNITS["line/rules"] = line_rules
@@ -318,6 +345,7 @@ def tensor_unit(cell):
                 ctx.fact("tensor/%s/n%d/exact" % (cell, n), fn, not bad, "%d of %d probe monomials wrong, e.g. %s" % (len(bad), len(exps), bad[:2]),
                          clause="exact for per-direction degree <= %d (%d monomials)" % (nn, len(exps)),
                          replay=dict(rp, clause="moment", exps=list(bad[0][0]) if bad else [0] * d))
+        _fresh(ctx, fn, "tensor/%s" % cell, lambda n: Q.get_quadrature(rd, n), [0, 2, 3, 4])
     return run
 
 
